@@ -989,7 +989,11 @@ fn read_arg_value(cur: &mut SourceCursor, song: &mut Song) -> SValue {
             if flag_array {
                 SValue::from_vec(args)
             } else {
-                SValue::from_i(args[0].to_i())
+                match &args[0] {
+                    // keep a variable reference such as (N): it is resolved when the command runs
+                    SValue::Str(s, _) if s.starts_with('=') => args[0].clone(),
+                    v => SValue::from_i(v.to_i()),
+                }
             }
         }
         '{' => {
